@@ -1590,7 +1590,36 @@ public:
                 Val a = op(s, I.getOperand(0));
                 bool srcD = I.getOperand(0)->getType()->isDoubleTy() || I.getOperand(0)->getType()->isX86_FP80Ty(), dstD = I.getType()->isDoubleTy() || I.getType()->isX86_FP80Ty();
                 if (a.sym && (I.getOpcode() == Instruction::FPExt || I.getOpcode() == Instruction::FPTrunc) && srcD && dstD) { setReg(s, &I, a); break; }
-                if (a.sym) throw EngineError("symbolic fp conversion");
+                if (a.sym) {
+                    // conversions in Z3's FP theory: to integer rounds toward zero (C semantics; out-of-range is undefined in C, here whatever Z3 picks),
+                    // from integer and between formats round to nearest even
+                    z3::sort sfs = srcD ? ZC.fpa_sort(11, 53) : ZC.fpa_sort(8, 24), dfs = dstD ? ZC.fpa_sort(11, 53) : ZC.fpa_sort(8, 24);
+                    z3::expr rne(ZC, Z3_mk_fpa_round_nearest_ties_to_even(ZC)), rtz(ZC, Z3_mk_fpa_round_toward_zero(ZC));   // held by expr objects: a bare Z3_ast has no reference
+                    unsigned ib = I.getType()->isIntegerTy() ? I.getType()->getIntegerBitWidth() : 0;
+                    z3::expr r(ZC);
+                    switch (I.getOpcode()) {
+                    case Instruction::FPToSI: case Instruction::FPToUI: {
+                        // out of range is undefined in C; the model follows what x86-64 code from gcc / clang does (cvttsd2si: "integer indefinite"), so that a
+                        // counterexample replays natively: signed 32-bit results come from the 32-bit instruction, everything else from the 64-bit one, truncated
+                        z3::expr x = a.ex().mk_from_ieee_bv(sfs);
+                        if (!srcD) x = z3::expr(ZC, Z3_mk_fpa_to_fp_float(ZC, rne, x, ZC.fpa_sort(11, 53)));
+                        bool s32 = I.getOpcode() == Instruction::FPToSI && ib <= 32;
+                        unsigned w = s32 ? 32 : 64;
+                        double lim = s32 ? 2147483648.0 : 9223372036854775808.0;
+                        z3::expr lo = ZC.fpa_val(-lim), hi = ZC.fpa_val(lim);
+                        z3::expr inrange = !x.mk_is_nan() && x >= lo && x < hi;
+                        z3::expr conv(ZC, Z3_mk_fpa_to_sbv(ZC, rtz, x, w));
+                        z3::expr indef = ZC.bv_val((uint64_t)(s32 ? 0x80000000ULL : 0x8000000000000000ULL), w);
+                        z3::expr full = z3::ite(inrange, conv, indef);
+                        r = ib < w ? full.extract(ib - 1, 0) : full;
+                        setReg(s, &I, mkSym(ib, r));
+                        break; }
+                    case Instruction::SIToFP: r = z3::expr(ZC, Z3_mk_fpa_to_fp_signed(ZC, rne, a.ex(), dfs)); setReg(s, &I, mkSym(dstD ? 64 : 32, z3::expr(ZC, Z3_mk_fpa_to_ieee_bv(ZC, r)))); break;
+                    case Instruction::UIToFP: r = z3::expr(ZC, Z3_mk_fpa_to_fp_unsigned(ZC, rne, a.ex(), dfs)); setReg(s, &I, mkSym(dstD ? 64 : 32, z3::expr(ZC, Z3_mk_fpa_to_ieee_bv(ZC, r)))); break;
+                    default: r = z3::expr(ZC, Z3_mk_fpa_to_fp_float(ZC, rne, a.ex().mk_from_ieee_bv(sfs), dfs)); setReg(s, &I, mkSym(dstD ? 64 : 32, z3::expr(ZC, Z3_mk_fpa_to_ieee_bv(ZC, r)))); break;
+                    }
+                    break;
+                }
                 auto asD = [&](const Val& v, bool isD) { if (isD) { double d; memcpy(&d, &v.c, 8); return d; } float f; uint32_t u = v.c; memcpy(&f, &u, 4); return (double)f; };
                 auto fromD = [&](double d, bool isD) { if (isD) { uint64_t u; memcpy(&u, &d, 8); return Val(64, u); } float f = (float)d; uint32_t u; memcpy(&u, &f, 4); return Val(32, u); };
                 switch (I.getOpcode()) {
@@ -1627,7 +1656,7 @@ public:
                     bool dbl = I.getOperand(0)->getType()->isDoubleTy();
                     z3::sort fs = dbl ? ZC.fpa_sort(11, 53) : ZC.fpa_sort(8, 24);
                     z3::expr x = a.ex().mk_from_ieee_bv(fs), y = b.ex().mk_from_ieee_bv(fs), rne = ZC.fpa_rounding_mode(), r(ZC);
-                    Z3_ast m = Z3_mk_fpa_round_nearest_ties_to_even(ZC);
+                    z3::expr m(ZC, Z3_mk_fpa_round_nearest_ties_to_even(ZC));
                     switch (I.getOpcode()) {
                     case Instruction::FAdd: r = z3::expr(ZC, Z3_mk_fpa_add(ZC, m, x, y)); break;
                     case Instruction::FSub: r = z3::expr(ZC, Z3_mk_fpa_sub(ZC, m, x, y)); break;
